@@ -58,12 +58,17 @@ func H_C10_unbind() {
 	}
 	vAssume(m.Delete(hf) == nil && m.Add(hf) == nil && m.DefaultRoute(hf) == nil)
 	withRoute := vBool("unbindRoute")
+	panics := false
 	if withRoute {
+		panics = vBool("unbindHandlerPanics")
 		vAssume(m.Unbind(func(w *ResponseWriter, r *Request) {
 			mu.Lock()
-			defer mu.Unlock()
 			unbinds++
 			vAssert(r.ID == pos+1, "unbind handler sees the unbind request")
+			mu.Unlock()
+			if panics {
+				panic("unbind handler panic")
+			}
 		}) == nil)
 	}
 	nc := vNetConn("c")
@@ -76,7 +81,16 @@ func H_C10_unbind() {
 	}
 	c, err := newConn(context.Background(), 1, nc, vLogger(), m)
 	vAssume(err == nil)
-	serr := c.serveRequests()
+	var serr error
+	func() {
+		// like the connection goroutine of Run: a panic on the read loop is recovered there
+		defer func() {
+			if rec := recover(); rec != nil {
+				vAssert(panics, "only the panicking unbind handler panics")
+			}
+		}()
+		serr = c.serveRequests()
+	}()
 	vAssert(serr == nil, "serveRequests ends without error on Unbind")
 	cerr := c.close()
 	vAssert(cerr == nil, "close ok")
@@ -175,6 +189,8 @@ func H_C13_starttls() {
 	vAssume(m.Delete(hf) == nil && m.Add(hf) == nil && m.DefaultRoute(hf) == nil)
 	tlsOK := vBool("handshakeOK")
 	vConnSet(nc, "tlsOK", tlsOK)
+	// a client that pipelines plaintext requests behind its StartTLS request in the same segment
+	vConnSet(nc, "pipelined", vBool("clientPipelinesPlaintext"))
 	var startErr error
 	framesAtStart, framesAtEnd := -1, -1
 	vAssume(m.ExtendedOperation(func(w *ResponseWriter, r *Request) {
@@ -217,4 +233,43 @@ func H_C13_starttls() {
 		vAssertE(vConnLayer(c.reader) == "reader(raw(c))" && vConnLayer(c.writer) == "writer(raw(c))", "failed handshake leaves the plain pair in place")
 	}
 	vReach("starttls")
+}
+
+func init() { vReg("H_C06_blockedwriter", H_C06_blockedwriter) }
+
+// C06: a handler blocked in Write (client not reading) delays neither the
+// dispatch of later requests on the same connection nor another connection.
+func H_C06_blockedwriter() {
+	M := 2 + vLen("extraFrames", 1)
+	m := vMux()
+	var mu sync.Mutex
+	entered := map[string]int{}
+	hf := func(w *ResponseWriter, r *Request) {
+		mu.Lock()
+		entered[fmt.Sprint(r.ConnectionID())]++
+		mu.Unlock()
+		_ = w.Write(r.NewResponse(WithResponseCode(ResultSuccess)))
+	}
+	vAssume(m.Delete(hf) == nil && m.Add(hf) == nil)
+	c1, c2 := vNetConn("c1"), vNetConn("c2")
+	vConnSet(c1, "writeBlock", true) // the first client never reads its responses
+	for i := 0; i < M; i++ {
+		vConnFeed(c1, vFrame(fmt.Sprintf("f%d", i), int64(i+1)))
+	}
+	vConnFeedBlock(c1)
+	vConnFeed(c2, vWire(refEnvelope(1, refDeleteOp(), nil)))
+	vConnFeedBlock(c2)
+	k1, err := newConn(context.Background(), 1, c1, vLogger(), m)
+	vAssume(err == nil)
+	k2, err := newConn(context.Background(), 2, c2, vLogger(), m)
+	vAssume(err == nil)
+	go func() { _ = k1.serveRequests() }()
+	go func() { _ = k2.serveRequests() }()
+	vQuiesce()
+	mu.Lock()
+	vAssertE(entered["1"] == M, "every later request on the connection is dispatched although an earlier handler is blocked writing")
+	vAssertE(entered["2"] == 1, "another connection is served meanwhile")
+	mu.Unlock()
+	vAssertE(vConnWrites(c2) == 1, "the other connection receives its response")
+	vReach("blockedwriter")
 }
